@@ -1,6 +1,7 @@
 SPECIFICATION DSpec
 CONSTANTS
  LEGS = 5
+ GLEGS = 4
  MAXCP = 2
  FIX = FALSE
 INVARIANT Post
